@@ -361,6 +361,15 @@ pub fn write_string(value: &[u8]) -> String {
     }
 }
 
+/// Writes a string without any raw line feed in the generated code.
+pub fn write_string_on_one_line(value: &[u8]) -> String {
+    if value.contains(&b'\n') {
+        write_quoted(value)
+    } else {
+        write_string(value)
+    }
+}
+
 pub fn write_interpolated_string_segment(segment: &StringSegment) -> String {
     let value = segment.get_value();
 
